@@ -33,6 +33,8 @@ func init() {
 type accessEnv struct {
 	fs       *RefFS
 	rw, ro   *Srv
+	sq       map[string]*Srv      // servers over the same backend with another squash mode (accessq ops)
+	sqH      map[string][2]uint64 // their handles for /f and /d
 	fRW, dRW uint64
 	fRO, dRO uint64
 }
@@ -61,7 +63,57 @@ func newAccessEnv() *accessEnv {
 	return e
 }
 
-func (e *accessEnv) close() { e.rw.Close(); e.ro.Close() }
+func (e *accessEnv) close() {
+	e.rw.Close()
+	e.ro.Close()
+	for _, s := range e.sq {
+		s.Close()
+	}
+}
+
+// squashed returns a server with the given squash mode (as spelled) over the same backend
+func (e *accessEnv) squashed(mode string) (*Srv, [2]uint64) {
+	if e.sq == nil {
+		e.sq, e.sqH = map[string]*Srv{}, map[string][2]uint64{}
+	}
+	if s, ok := e.sq[mode]; ok {
+		return s, e.sqH[mode]
+	}
+	s, err := newSrv(e.fs, absnfs.ExportOptions{Squash: mode})
+	must(err)
+	root, _ := s.Mount("/")
+	var h [2]uint64
+	// handles are obtained with AUTH_SYS 0:0, which every mode lets LOOKUP
+	h[0], _ = s.Lookup(root, "f", rootCred())
+	h[1], _ = s.Lookup(root, "d", rootCred())
+	e.sq[mode], e.sqH[mode] = s, h
+	return s, h
+}
+
+// squashIDs: the effective identity of an AUTH_SYS credential per the documented rule (C10), auxiliary gids included
+func squashIDs(mode string, uid, gid uint32, aux []uint32) (uint32, uint32, []uint32) {
+	out := append([]uint32(nil), aux...)
+	switch strings.ToLower(mode) {
+	case "none":
+	case "all":
+		uid, gid = 65534, 65534
+		for i := range out {
+			out[i] = 65534
+		}
+	default:
+		if uid == 0 {
+			uid, gid = 65534, 65534
+		} else if gid == 0 {
+			gid = 65534
+		}
+		for i := range out {
+			if out[i] == 0 {
+				out[i] = 65534
+			}
+		}
+	}
+	return uid, gid, out
+}
 
 // op: access <mode-octal> <isDir> <ro> <effUid> <effGid> <aux|-> <fUid> <fGid> <mask>
 func (e *accessEnv) run(op string) string {
@@ -69,7 +121,14 @@ func (e *accessEnv) run(op string) string {
 	var isDir, ro int
 	var eu, eg, fu, fg, mask uint32
 	var auxs string
-	if _, err := fmt.Sscanf(op, "access %o %d %d %d %d %s %d %d %d", &mode, &isDir, &ro, &eu, &eg, &auxs, &fu, &fg, &mask); err != nil {
+	sqMode := ""
+	if strings.HasPrefix(op, "accessq ") {
+		// accessq <squash-mode> <mode-octal> <isDir> <uid> <gid> <aux|-> <fUid> <fGid> <mask>: the identity is what
+		// the client sends; the export squashes it (read-write export)
+		if _, err := fmt.Sscanf(op, "accessq %s %o %d %d %d %s %d %d %d", &sqMode, &mode, &isDir, &eu, &eg, &auxs, &fu, &fg, &mask); err != nil {
+			return "bad-op"
+		}
+	} else if _, err := fmt.Sscanf(op, "access %o %d %d %d %d %s %d %d %d", &mode, &isDir, &ro, &eu, &eg, &auxs, &fu, &fg, &mask); err != nil {
 		return "bad-op"
 	}
 	var aux []uint32
@@ -79,6 +138,22 @@ func (e *accessEnv) run(op string) string {
 			fmt.Sscan(a, &v)
 			aux = append(aux, v)
 		}
+	}
+	if sqMode != "" {
+		// the credential as sent; the server squashes it
+		p := "/f"
+		if isDir == 1 {
+			p = "/d"
+		}
+		e.fs.Chmod(p, os.FileMode(mode&0o777))
+		s, hs := e.squashed(sqMode)
+		h := hs[isDir]
+		absnfs.VerifNodeSetOwner(s.NFS, h, fu, fg)
+		r := s.NFSCall(4, Cred{Flavor: 1, UID: eu, GID: eg, Aux: aux}, cat(fh(h), u32(mask)))
+		if r.Err != nil || status(r) != 0 || len(r.Data) != 4+4+84+4 {
+			return fmt.Sprintf("error status=%d len=%d", status(r), len(r.Data))
+		}
+		return fmt.Sprint(binary.BigEndian.Uint32(r.Data[92:]))
 	}
 	p := "/f"
 	if isDir == 1 {
@@ -108,7 +183,30 @@ func accessOracle(r *Result, op, impl string) {
 	var isDir, ro int
 	var eu, eg, fu, fg, mask uint32
 	var auxs string
-	fmt.Sscanf(op, "access %o %d %d %d %d %s %d %d %d", &mode, &isDir, &ro, &eu, &eg, &auxs, &fu, &fg, &mask)
+	if strings.HasPrefix(op, "accessq ") {
+		var sqMode string
+		fmt.Sscanf(op, "accessq %s %o %d %d %d %s %d %d %d", &sqMode, &mode, &isDir, &eu, &eg, &auxs, &fu, &fg, &mask)
+		var aux []uint32
+		if auxs != "-" {
+			for _, a := range strings.Split(auxs, ",") {
+				var v uint32
+				fmt.Sscan(a, &v)
+				aux = append(aux, v)
+			}
+		}
+		var eaux []uint32
+		eu, eg, eaux = squashIDs(sqMode, eu, eg, aux)
+		auxs = "-"
+		if len(eaux) > 0 {
+			var l []string
+			for _, g := range eaux {
+				l = append(l, fmt.Sprint(g))
+			}
+			auxs = strings.Join(l, ",")
+		}
+	} else {
+		fmt.Sscanf(op, "access %o %d %d %d %d %s %d %d %d", &mode, &isDir, &ro, &eu, &eg, &auxs, &fu, &fg, &mask)
+	}
 	var got uint32
 	if _, err := fmt.Sscan(impl, &got); err != nil {
 		r.violate(Violation{Class: "C12/access-failed", What: "ACCESS on a live handle did not return NFS3_OK: " + impl, Ops: []string{op}})
@@ -162,7 +260,7 @@ func accessOracle(r *Result, op, impl string) {
 }
 
 func checkC12(r *Result, rng *rand.Rand, thorough bool) {
-	r.Rule = "ACCESS calls through the real HandleCall over (mode, file|dir, read-only, identity relation incl. aux gids and uid 0, 32-bit mask); quick: all 512 rwx modes x 2 x 2 x 7 relations with sampled masks + random; thorough: all 512 modes x file/dir x ro x 7 relations x all 64 masks (exhaustive) + random high-bit masks; every case is non-trivial (a decision is computed); distinct = distinct op lines"
+	r.Rule = "ACCESS calls through the real HandleCall over (mode, file|dir, read-only, identity relation incl. aux gids and uid 0, 32-bit mask); quick: all 512 rwx modes x 2 x 2 x 7 relations with sampled masks + random; thorough: all 512 modes x file/dir x ro x 7 relations x all 64 masks (exhaustive) + random high-bit masks; plus the same decisions on exports with squash root/all/none in every accepted spelling, the credential (uid 0, gid 0, auxiliary gid 0 or the file's group) squashed by the server; every case is non-trivial (a decision is computed); distinct = distinct op lines"
 	e := newAccessEnv()
 	defer e.close()
 	// identity relations: (effUid, effGid, aux, fileUid, fileGid)
@@ -228,13 +326,42 @@ func checkC12(r *Result, rng *rand.Rand, thorough bool) {
 		}
 		ops = append(ops, fmt.Sprintf("access %o %d %d %d %d %s %d %d %d", rng.Intn(512), rng.Intn(2), rng.Intn(2), pick(), pick(), aux, pick(), pick(), mask))
 	}
+	// the identity the rules are applied to is the one the export's squash mode leaves (auxiliary gids included):
+	// the same decisions with the credential as sent and a squashing export, for every spelling the constructor accepts
+	nq := 600
+	if thorough {
+		nq = 12000
+	}
+	var qops []string
+	for i := 0; i < nq; i++ {
+		sqMode := []string{"root", "all", "none", "Root", "ALL", "None", "aLl", "ROOT"}[rng.Intn(8)]
+		x := rels[rng.Intn(len(rels))]
+		uid, gid, aux := x.eu, x.eg, x.aux
+		switch rng.Intn(4) {
+		case 0:
+			uid, gid = 0, 0
+		case 1:
+			aux = []string{"0", "100,0", "0,200", "100"}[rng.Intn(4)]
+		}
+		fu, fg := x.fu, x.fg
+		if rng.Intn(3) == 0 {
+			fu, fg = []uint32{0, 65534, 1000}[rng.Intn(3)], []uint32{0, 65534, 100}[rng.Intn(3)]
+		}
+		qops = append(qops, fmt.Sprintf("accessq %s %o %d %d %d %s %d %d %d", sqMode, rng.Intn(512), rng.Intn(2), uid, gid, aux, fu, fg, []int{0x3f, rng.Intn(64)}[rng.Intn(2)]))
+	}
+	for range qops {
+		r.count("squashed-export")
+	}
+	ops = append(ops, qops...)
 	impl := make([]string, len(ops))
 	for i, op := range ops {
 		impl[i] = e.run(op)
 		accessOracle(r, op, impl[i])
 		r.noteCase(op, true)
 		f := strings.Fields(op)
-		r.count("dir=" + f[2] + ",ro=" + f[3])
+		if f[0] == "access" {
+			r.count("dir=" + f[2] + ",ro=" + f[3])
+		}
 		if i%(len(ops)/6+1) == 0 {
 			r.sample(map[string]string{"op": op, "granted": impl[i]})
 		}
